@@ -605,7 +605,7 @@ IssueW(x, op0) ==
 EBundles(e) == { << <<"emut", e, 1>> >>, << <<"eev", e, 1>> >>, << <<"erem", e, 1>> >>, << <<"emut", e, 1>>, <<"eev", e, 1>> >>,
                  << <<"emut", e, 1>>, <<"eev", e, 1>>, <<"erem", e, 1>> >> }
 SetVals == IF "coarse" \in Features THEN (1..NVal) \cup { 100 + v : v \in 1..NVal } ELSE 1..NVal
-DirectOps == {"xrm", "xdesp", "xdesprec", "xbc", "xeev", "xsysev"}
+DirectOps == {"xrm", "xdesp", "xdesprec", "xbc", "xeev", "xsysev", "xres"}
 NeedAccess == {"resmut", "resset", "resno", "mut", "set", "noreact", "wadd", "wrem", "wrun", "eadd", "erem", "sysevsig", "smut", "sset", "sno"}
 FreeOp(x, cur, OpNames_, go(_)) ==
     \/ "run" \in OpNames_ /\ \E s \in Targets(x) : go(<<"run", s>>)
@@ -630,6 +630,7 @@ FreeOp(x, cur, OpNames_, go(_)) ==
     \/ "xrm" \in OpNames_ /\ \E e \in Ents, t \in Tys : go(<<"xrm", e, t>>)
     \/ "xsysev" \in OpNames_ /\ \E s \in Targets(x) : go(<<"xsysev", s, x.nextP>>)
     \/ "xbc" \in OpNames_ /\ \E t \in Tys : go(<<"xbc", t, x.nextP>>)
+    \/ "xres" \in OpNames_ /\ \E t \in Tys : go(<<"xres", t>>)
     \/ "xeev" \in OpNames_ /\ \E e \in Ents, t \in Tys : go(<<"xeev", e, t, x.nextP>>)
     \/ "irun" \in OpNames_ /\ \E s \in Targets(x) : go(<<"irun", s>>)
     \/ "isysev" \in OpNames_ /\ \E s \in Targets(x) : go(<<"isysev", s, x.nextP>>)
